@@ -23,10 +23,11 @@ pub fn params() -> String {
     format!("{}/parameters", repo())
 }
 
-#[derive(Clone)]
-pub struct Config {
+/// a model configuration; generic in the model type so that Helmholtz energy functionals used as bulk models
+/// (`DFT<...>`, which implement `Residual`) can be treated like the equations of state
+pub struct ConfigG<R> {
     pub name: String,
-    pub model: Arc<ResidualModel>,
+    pub model: Arc<R>,
     pub ncomp: usize,
     /// temperature scale in K for sampling (roughly the critical temperature scale)
     pub t_scale: f64,
@@ -35,6 +36,18 @@ pub struct Config {
     /// temperatures at which the model's code may branch (numbers that appear in its parameter records, e.g. the
     /// interpolation points of a tabulated permittivity): sampled exactly, with probability 1/4
     pub special_t: Vec<f64>,
+}
+
+impl<R> Clone for ConfigG<R> {
+    fn clone(&self) -> Self {
+        ConfigG { name: self.name.clone(), model: self.model.clone(), ncomp: self.ncomp, t_scale: self.t_scale, core: self.core, special_t: self.special_t.clone() }
+    }
+}
+
+pub type Config = ConfigG<ResidualModel>;
+
+pub fn cfg_of<R>(name: &str, model: R, ncomp: usize, t_scale: f64, core: bool) -> ConfigG<R> {
+    ConfigG { name: name.into(), model: Arc::new(model), ncomp, t_scale, core, special_t: Vec::new() }
 }
 
 fn cfg(name: &str, model: ResidualModel, ncomp: usize, t_scale: f64, core: bool) -> Config {
@@ -499,8 +512,7 @@ impl RState {
 /// sample a state in the range the properties quantify over:
 /// T in [0.4,3] t_scale, packing fraction eta/eta_max in (1e-6, 0.9) (log-uniform half of the time),
 /// composition in the open simplex, total amount in [0.5, 50]
-pub fn sample_state(c: &Config, rng: &mut Rng) -> RState {
-    use feos_core::Residual;
+pub fn sample_state<R: feos_core::Residual>(c: &ConfigG<R>, rng: &mut Rng) -> RState {
     let mut t = c.t_scale * rng.range(0.4, 3.0);
     if !c.special_t.is_empty() && rng.f64() < 0.25 {
         t = c.special_t[rng.below(c.special_t.len())];
